@@ -12,6 +12,8 @@ op  = ["idjump", k] (the process-wide event-id counter SimulationEvent._ids is a
     | ["until", t, fl] | ["for", d, fl] | ["next"] | ["peek", n]
 act = ["sched", ...same...] | ["cancel", tag] | ["drop", holder] | ["raise"] (the user callable raises UserBoom: ARaise in the model)
       | ["running", bool] (user code sets model.running; no effect on a simulator: nothing in the model)
+      | ["rnext"] | ["rreset"] (re-entrancy: the callable calls run_next_event() / reset() on the simulator executing it; only in
+        cases marked "nested": true, which are judged by nested_oracle alone - implementation + oracle only)
 kind in now|rel|abs|tick, prio in L|D|H.  Tags are unique per case; model.step events show as tag -1.
 
 User code: an event's callable is the bound method `fire` of a Holder object (even holder ids; WeakMethod) or a plain
@@ -44,6 +46,12 @@ class UserBoom(Exception):
 class UserBoomIndex(UserBoom, IndexError):
     """the same, but also an IndexError (what random.choice([]) or [].pop() in user code raise): the simulators use
     `except IndexError` for "the event list is empty" and must not mistake the user's exception for that"""
+
+
+# ... and every other "control-flow" exception type a library may catch for its own purposes (next() on an exhausted
+# iterator, a missing key / attribute, a wrong call, a closing generator), plus the plain custom one
+BOOMS = [UserBoom, UserBoomIndex] + [type("UserBoom" + b.__name__, (UserBoom, b), {})
+                                     for b in (StopIteration, KeyError, AttributeError, TypeError, GeneratorExit, LookupError, RuntimeError)]
 PVAL = {"L": 10, "D": 5, "H": 1}
 PNAME = {"L": "PLow", "D": "PDefault", "H": "PHigh"}
 KNAME = {"now": "KNow", "rel": "KRel", "abs": "KAbs", "tick": "KTick"}
@@ -169,8 +177,45 @@ class _Env:
 
         self.Holder = Holder
         self.make_fn = make_fn
+        # user subclasses as the library intends them: hooks overridden and delegating to super(), extra state, a model whose
+        # step is overridden once more and calls super().step(); every other history uses them instead of the stock classes
+        class MyABM(ABMSimulator):
+            """docstring-only plus hooks"""
+
+            hooks = 0
+
+            def setup(self, model):
+                self.hooks += 1
+                return super().setup(model)
+
+            def _execute_event(self, event):
+                self.hooks += 1
+                return super()._execute_event(event)
+
+            def _schedule_event(self, event):
+                self.hooks += 1
+                return super()._schedule_event(event)
+
+        class MyDEVS(DEVSimulator):
+            def __init__(self, label="x"):
+                super().__init__()
+                self.label = label
+
+            def _execute_event(self, event):
+                return super()._execute_event(event)
+
+            def run_for(self, time_delta):
+                return super().run_for(time_delta)
+
+        class M2(M):
+            def step(self):
+                super().step()
+
+        sub = sum(map(len, map(str, case["ops"][:3]))) % 2 == 1
+        if sub:
+            M = M2      # noqa: N806
         self.Model = M
-        self.sim = ABMSimulator() if self.abm else DEVSimulator()
+        self.sim = (MyABM() if self.abm else MyDEVS(label="y")) if sub else (ABMSimulator() if self.abm else DEVSimulator())
         # a second simulator in the same process that keeps consuming event ids (SimulationEvent._ids is class-level state)
         self.decoy = DEVSimulator()
         # one keyword dict object shared by ALL events, and the argument lists handed in: caller-owned, must never be mutated
@@ -197,7 +242,18 @@ class _Env:
                 self.do_drop(a[1])
             elif a[0] == "raise":
                 self.ncall += 1
-                raise (UserBoomIndex() if self.ncall % 2 else UserBoom())
+                raise BOOMS[self.ncall % len(BOOMS)]()
+            elif a[0] == "rnext":
+                # re-entrancy: the callable itself calls run_next_event() (markers 8 / 9 around whatever runs nested)
+                self.log.append([8, 0, sc(self.sim.time)])
+                if self.sim.model is not None:          # (after a nested reset() there is no model: the user code does not run then)
+                    self.sim.run_next_event()
+                self.log.append([9, 0, sc(self.sim.time)])
+            elif a[0] == "rreset":
+                # re-entrancy: the callable calls reset() on the simulator that is executing it
+                self.sim.reset()
+                self.is_setup = False
+                self.log.append([6, 0, 0])
             elif a[0] == "running":
                 # user code sets model.running (Model.run_model / the solara controllers look at it; the simulators do not:
                 # the statement of C15 says model.step runs at EVERY tick) - no effect in the Gallina model, not printed for it
@@ -213,7 +269,9 @@ class _Env:
             # (WeakMethod), 1 a plain function, 2 a functools.partial object, 3 a (falsy) instance with __call__ (weakref.ref)
             import functools
 
-            self.holders[h] = [self.Holder(h), self.make_fn(), functools.partial(self.make_fn()), self.Holder(h)][h % 4] \
+            f0 = self.make_fn()
+            lam = (lambda tag, body, extra=None: f0(tag, body, extra)) if self.ncall % 2 else None   # a lambda (kept alive by us only)
+            self.holders[h] = [self.Holder(h), lam or self.make_fn(), functools.partial(self.make_fn()), self.Holder(h)][h % 4] \
                 if h >= 0 else self.make_fn()
         holder = self.holders[h]
         fn = holder.fire if h % 4 == 0 else holder
@@ -806,7 +864,204 @@ def chunk_oracle(case, recs):
     return fails
 
 
+def nested_oracle(case, recs):
+    """histories whose callables re-enter the simulator (run_next_event() / reset() from inside an event or model.step).  Demands
+    what the statement says about what happens: every executed event is pending, live and the least live one at that moment, runs
+    with the clock at its time, never twice; the clock only goes back through reset(); schedule calls made afterwards are judged
+    against the clock the re-entrant call left; a completed run_until leaves nothing due behind and the clock at its horizon; under
+    ABMSimulator model.step runs once per tick while a model is attached."""
+    cls = CLS[case["cls"]]
+    abm = case["cls"] == "ABM"
+    script = {int(k): v for k, v in case.get("script", [])}
+    fails = []
+    pend = []
+    st = {"seq": 0, "clock": 0, "setup": True, "nsteps": 0}
+
+    def fail(key, i, what):
+        fails.append({"key": key, "op": i, "what": what})
+
+    def add(tag, t, prio, body, step=False):
+        st["seq"] += 1
+        pend.append({"tag": tag, "time": t, "prio": prio, "seq": st["seq"], "cancelled": False, "step": step, "body": body})
+
+    if abm:
+        add(-1, S, PVAL["H"], [], True)
+
+    class Stop(Exception):
+        pass
+
+    def sched(i, a, rc, t_logged):
+        _, kind, t, fl, prio, tag, h, body = a
+        now = st["clock"]
+        when = {"abs": t, "rel": now + t, "now": now, "tick": now + S}[kind]
+        legal = when >= now and not (abm and when % S)
+        if (rc == R_OK) != legal:
+            fail(f"C14/{cls}/nested/{SITE[kind]}-wrong-verdict", i, f"{SITE[kind]} for {_d(when)} at clock {_d(now)} after a re-entrant call: outcome {rc}")
+            raise Stop
+        if rc == R_OK:
+            if t_logged is not None and t_logged != when:
+                fail(f"C14/{cls}/nested/wrong-event-time", i, f"event {tag} got time {_d(t_logged)}, not {_d(when)}")
+                raise Stop
+            add(tag, when, PVAL[prio], body)
+
+    def walk(i, log, pos):
+        """log[pos] is an execution item: check it, then interpret the callable's body against the following items"""
+        it = log[pos]
+        is_step = it[0] == 3
+        clk = it[2]
+        cands = [e for e in pend if (e["step"] if is_step else (e["tag"] == it[1] and not e["step"]))]
+        if not cands:
+            fail(f"C14/{cls}/nested/executed-twice-or-never-scheduled", i, f"{'model.step' if is_step else 'event ' + str(it[1])} ran at {_d(clk)} but is not pending")
+            raise Stop
+        e = min(cands, key=lambda x: x["time"])
+        if e["cancelled"]:
+            fail(f"C14/{cls}/nested/cancelled-event-executed", i, f"event {it[1]} was cancelled and ran")
+            raise Stop
+        if clk != e["time"]:
+            fail(f"C14/{cls}/nested/clock-differs-from-event-time", i, f"event {it[1]} for {_d(e['time'])} ran with clock {_d(clk)}")
+            raise Stop
+        if clk < st["clock"]:
+            fail(f"C14/{cls}/nested/clock-moved-backwards", i, f"clock {_d(st['clock'])} -> {_d(clk)}")
+            raise Stop
+        for o in pend:
+            if o is e or o["cancelled"]:
+                continue
+            less = (o["time"], o["prio"]) < (e["time"], e["prio"]) if (o["step"] or e["step"]) else \
+                (o["time"], o["prio"], o["seq"]) < (e["time"], e["prio"], e["seq"])
+            if less:
+                fail((f"C15/{cls}/nested/step-order" if o["step"] else f"C14/{cls}/nested/not-in-time-priority-fifo-order"), i,
+                     f"{'model.step' if is_step else 'event ' + str(it[1])} at {_d(clk)} ran while {'model.step' if o['step'] else 'event ' + str(o['tag'])} at {_d(o['time'])} (priority {o['prio']}) was pending")
+                raise Stop
+        pend.remove(e)
+        st["clock"] = clk
+        pos += 1
+        if is_step:
+            st["nsteps"] += 1
+            if it[1] != st["nsteps"] or clk != st["nsteps"] * S:
+                fail(f"C15/{cls}/nested/step-not-once-per-tick", i, f"step call number {st['nsteps']}: model.steps = {it[1]}, clock {_d(clk)}")
+                raise Stop
+            add(-1, clk + S, PVAL["H"], [], True)
+            body = script.get(it[1], [])
+        else:
+            body = e["body"]
+        for a in body:
+            if a[0] == "sched":
+                if pos >= len(log) or log[pos][0] not in (1, 2, 4, 5) or log[pos][1] != a[5]:
+                    fail(f"C14/{cls}/nested/trace", i, f"expected the outcome of scheduling {a[5]} at {pos}: {log[pos:pos + 3]}")
+                    raise Stop
+                code = log[pos][0]
+                if code != 5:
+                    sched(i, a, R_OK if code == 4 else code, log[pos][2] if code == 4 else None)
+                pos += 1
+            elif a[0] == "cancel":
+                for o in pend:
+                    if o["tag"] == a[1] and not o["step"]:
+                        o["cancelled"] = True
+            elif a[0] == "rnext":
+                if pos >= len(log) or log[pos][0] != 8:
+                    fail(f"C14/{cls}/nested/trace", i, f"expected the marker of a nested run_next_event at {pos}")
+                    raise Stop
+                pos += 1
+                live = [o for o in pend if not o["cancelled"]]
+                if pos < len(log) and log[pos][0] in (0, 3):
+                    pos = walk(i, log, pos)
+                elif live and st["setup"]:
+                    fail(f"C14/{cls}/nested/run_next_event-ran-nothing", i, f"nested run_next_event ran nothing although {len(live)} live events are pending")
+                    raise Stop
+                if pos >= len(log) or log[pos][0] != 9 or log[pos][2] != st["clock"]:
+                    fail(f"C14/{cls}/nested/clock-after-nested-run", i, f"after the nested run_next_event the clock is {log[pos][2] if pos < len(log) else '?'}, expected {st['clock']}")
+                    raise Stop
+                pos += 1
+            elif a[0] == "rreset":
+                if pos >= len(log) or log[pos][0] != 6:
+                    fail(f"C14/{cls}/nested/trace", i, f"expected the marker of a nested reset at {pos}")
+                    raise Stop
+                pos += 1
+                del pend[:]
+                st["clock"] = 0
+                st["setup"] = False
+        return pos
+
+    for i, (op, (ob, info)) in enumerate(zip(case["ops"], recs)):
+        k = op[0]
+        before, after = info["before"], info["after"]
+        try:
+            if "exc" in info:
+                fail(f"C14/{cls}/nested/unexpected-exception", i, f"{op} raised {info['exc']}")
+                raise Stop
+            if k == "sched":
+                if info["rc"] != R_SKIP:
+                    st["clock"] = before[0]
+                    sched(i, op, info["rc"], info["t"] if info["rc"] == R_OK else None)
+            elif k == "cancel":
+                for o in pend:
+                    if o["tag"] == op[1] and not o["step"]:
+                        o["cancelled"] = True
+            elif k in ("until", "for", "next"):
+                if info.get("nosetup"):
+                    if st["setup"] or after != before:
+                        fail(f"C14/{cls}/nested/raised-no-model", i, f"{op} raised 'no model' (model attached: {st['setup']}), state {before} -> {after}")
+                        raise Stop
+                    continue
+                if not st["setup"]:
+                    fail(f"C14/{cls}/nested/ran-without-setup", i, f"{op} ran although reset() had detached the model")
+                    raise Stop
+                st["clock"] = before[0]
+                horizon = op[1] if k == "until" else before[0] + op[1] if k == "for" else None
+                log = info["log"]
+                pos = 0
+                n_top = 0
+                while pos < len(log):
+                    if log[pos][0] not in (0, 3):
+                        fail(f"C14/{cls}/nested/trace", i, f"stray log item {log[pos]} at {pos}")
+                        raise Stop
+                    if horizon is not None and log[pos][2] > horizon:
+                        fail(f"C14/{cls}/nested/executed-beyond-horizon", i, f"{log[pos]} ran in {op}")
+                        raise Stop
+                    pos = walk(i, log, pos)
+                    n_top += 1
+                if k == "next" and n_top > 1:
+                    fail(f"C14/{cls}/nested/run_next_event-more-than-one", i, f"run_next_event ran {n_top} events at the top level")
+                    raise Stop
+                # a nested run_next_event may run events BEYOND the horizon of the enclosing run_until, which afterwards puts the
+                # clock (back) to its horizon: HEAD's behaviour for re-entrant runs, outside the statement - then steps / clock are not judged
+                overshoot = horizon is not None and st["clock"] > horizon
+                if horizon is not None and horizon >= before[0]:
+                    if after[0] != horizon:
+                        fail(f"C14/{cls}/nested/clock-not-at-horizon", i, f"after {op} the clock is {_d(after[0])}")
+                        raise Stop
+                    left = [o for o in pend if not o["cancelled"] and o["time"] <= horizon]
+                    if left:
+                        fail((f"C15/{cls}/nested/missed-tick" if left[0]["step"] else f"C14/{cls}/nested/live-event-not-executed"), i,
+                             f"after {op}: {left[0]['tag']} at {_d(left[0]['time'])} is live and due but did not run")
+                        raise Stop
+                    st["clock"] = horizon
+                    if overshoot:
+                        st["ahead"] = True          # model.steps is ahead of the clock until the clock catches up again
+                    if abm and st["setup"] and after[1] * S == after[0]:
+                        st["ahead"] = False
+                    if abm and st["setup"] and not st.get("ahead") and after[1] * S != after[0]:
+                        fail(f"C15/{cls}/nested/steps-differ-from-clock", i, f"after {op}: model.steps = {after[1]}, clock {_d(after[0])}")
+                        raise Stop
+                elif horizon is not None:
+                    st["ahead"] = True          # a horizon before now (outside the statement): the clock was put back
+                    st["clock"] = after[0]
+                elif k == "next" and after[0] != st["clock"]:
+                    fail(f"C14/{cls}/nested/clock-after-run_next_event", i, f"clock {_d(after[0])}, expected {_d(st['clock'])}")
+                    raise Stop
+            exp = sorted([e["tag"], e["time"], e["prio"]] for e in pend if not e["cancelled"])
+            if exp != sorted(after[2]):
+                fail(f"C14/{cls}/nested/pending-differs", i, f"after {op}: pending {sorted(after[2])}, scheduled and not yet run {exp}")
+                raise Stop
+        except Stop:
+            break
+    return fails
+
+
 def run_impl(case):
+    if case.get("nested"):
+        recs = simulate(case, case["ops"])
+        return {"obs": [ob[:3] for ob, _ in recs], "failures": nested_oracle(case, recs), "model": False}
     _MODE["float"] = bool(case.get("float"))
     if _MODE["float"]:
         case = _decode(case)
@@ -866,7 +1121,7 @@ def coq_xop(op):
 
 
 def coq_case(case):
-    if case.get("float") or case.get("nomodel"):   # never evaluated by the model; only printed if a replay file asks for model observations
+    if case.get("float") or case.get("nomodel") or case.get("nested"):   # never evaluated by the model; only printed if a replay file asks for model observations
         return "{| x_cfg := {| c_abm := false; c_script := [] |}; x_setup := true; x_fuel := 1%nat; x_ops := [] |}"
     script = L.lst([L.pair(L.z(k), L.lst([coq_act(a) for a in acts if a[0] != 'running'])) for k, acts in case.get("script", [])])
     cfg = f"{{| c_abm := {L.b(case['cls'] == 'ABM')}; c_script := {script} |}}"
